@@ -53,6 +53,7 @@ type c09Scenario struct {
 	PreAlloc          int
 	NilHandler        bool   `json:"nil_panic_handler,omitempty"`
 	ReHandler         int    `json:"panic_handler_replaced,omitempty"` // 1: after the first workers exist, before any submission; 2: by a thread while the pool works
+	SlowHandler       bool   `json:"first_panic_handler_call_blocks_until_the_other_jobs_ran,omitempty"`
 	Retune            []int  `json:"batch_size_set_at_run_time,omitempty"`
 	Ctor              string `json:"pool_construction"` // setters | settings-struct | set-settings-struct | set-job-queue
 	InvSetters        bool   `json:"invokable_built_with_setters,omitempty"`
@@ -65,6 +66,8 @@ type c09Scenario struct {
 	jobs         []*c09JobRec
 	handler      []c09Handled
 	stranded     bool
+	handlerWait  func(val string)
+	stalledInfo  string
 	strandedInfo string
 	settleAt     uint64
 	closeAt      uint64
@@ -122,6 +125,11 @@ func genC09(t *simrt.Tape, tier string) Scenario {
 	sc.Sibling = t.Bool(1, 4)
 	// SetPanicHandler(nil): panics are swallowed silently, everything else must stay the same
 	sc.NilHandler = t.Bool(1, 5)
+	if !sc.NilHandler && sc.Max >= 2 && sc.StandBy >= 2 && t.Bool(1, 3) {
+		// fault: the user's panic handler is slow - its first invocation does not return before every other accepted
+		// job has run (bounded by the fair horizon). A second stand-by worker exists, so the pool can go on.
+		sc.SlowHandler = true
+	}
 	if !sc.NilHandler && t.Bool(1, 4) {
 		// the handler is replaced through SetPanicHandler after workers have been created
 		sc.ReHandler = 1 + t.Choose(2)
@@ -197,6 +205,9 @@ func (sc *c09Scenario) Run(s *simrt.Sim) {
 	configure := func(p *worker.DefaultWorkerPool) {
 		p.SetPanicHandler(func(v interface{}) {
 			sc.handler = append(sc.handler, c09Handled{at: s.Stamp(), val: fmt.Sprint(v), gen: 1})
+			if sc.handlerWait != nil {
+				sc.handlerWait(fmt.Sprint(v))
+			}
 		})
 		if sc.NilHandler {
 			p.SetPanicHandler(nil)
@@ -255,6 +266,9 @@ func (sc *c09Scenario) Run(s *simrt.Sim) {
 		h.Do(who, "SetPanicHandler", 2, func() (interface{}, error) {
 			pool.SetPanicHandler(func(v interface{}) {
 				sc.handler = append(sc.handler, c09Handled{at: s.Stamp(), val: fmt.Sprint(v), gen: 2})
+				if sc.handlerWait != nil {
+					sc.handlerWait(fmt.Sprint(v))
+				}
 			})
 			return nil, nil
 		})
@@ -336,6 +350,39 @@ func (sc *c09Scenario) Run(s *simrt.Sim) {
 			s.Sleep(sc.Unit)
 			rehandle("rehandler")
 		}))
+	}
+	if sc.SlowHandler {
+		first := true
+		submitters := allDone(ths)
+		sc.handlerWait = func(val string) {
+			if !first {
+				return
+			}
+			first = false
+			othersRan := func() bool {
+				if !submitters() {
+					return false
+				}
+				for _, j := range sc.jobs {
+					if j.sub == nil || !j.sub.Returned {
+						return false
+					}
+					if j.panicVal == val {
+						continue
+					}
+					if j.sub.Name != "Invoke" && j.sub.Err == nil && j.sub.Panic == "" && len(j.ends) == 0 {
+						return false
+					}
+				}
+				return true
+			}
+			sc.probes["panic-handler-blocked-while-others-run"]++
+			// no deadline of its own (an injected stall would make any virtual-time deadline meaningless): if the pool
+			// cannot go on while this handler runs, the settle phase's fair horizon expires and the run is judged there
+			sc.stalledInfo = fmt.Sprintf("the panic handler (handling %q) was still waiting for the other accepted jobs to run; max=%d standby=%d", val, sc.Max, sc.StandBy)
+			s.WaitUntil(othersRan)
+			sc.stalledInfo = ""
+		}
 	}
 	s.WaitUntilTimeout(allDone(ths), 10*time.Minute)
 	// settle: pool left open, fair scheduling, no further submission
@@ -490,6 +537,9 @@ func (sc *c09Scenario) Check(res *simrt.Result) []Violation {
 	}
 	if accepted >= 2 {
 		sc.probes["accepted>=2"]++
+	}
+	if sc.stalledInfo != "" && sc.stranded {
+		add("panic-isolation", "pool-stalled-while-the-panic-handler-runs", "a panicking job must not keep later accepted jobs from running, but "+sc.stalledInfo)
 	}
 	// (iv) concurrency gauge
 	sort.Slice(evs, func(i, k int) bool { return evs[i].at < evs[k].at })
